@@ -214,7 +214,8 @@ Proof. vm_compute. repeat split; reflexivity. Qed.
              wsum_xw = sum(w x)); Weight = n exactly (weighted: within tol_sum ws of Qsum ws); Bounds = exactly
              (least, greatest) element (is_min, is_max) of xs — weighted: of the values carrying a non-zero weight
              ([used]) — provided the Sorted flag is only set on ascending data; NaN for the empty sample; weighted
-             Variance / StdDev panic; nothing was modified.  GeoMean: only NaN-ness and positivity (geo_ok).
+             Variance / StdDev panic; nothing was modified.  GeoMean (slice function): NaN exactly for the empty sample or
+             a value <= 0, else positive with |g^n - prod xs| <= geo_rel n * prod xs when n <= 64 (geo_ok).
      kind 1  hist_ok: every dump equals the model store, every query satisfies query_obs_ok (same predicates as
              above) for the queried sample — stated relative to the model store h_step (see meta: partial).
      kind 2  vec_ok: Linspace element-wise within tol_lin of lo + i (hi - lo)/(num - 1); Sum within tol_sum of Qsum;
@@ -277,12 +278,13 @@ Print Assumptions C09_compare_bounds_sound.
 (* GeoMean of at most 64 unweighted values (tag bit 32): exp / ln are never evaluated — the observed g is positive and
    its n-th power is within the relative tolerance geo_rel n = 64 n (n + 8) 2^-52 of the product of the values *)
 Theorem C09_compare_geomean_sound : forall xs g, (length xs <= 64)%nat ->
-  g_check xs (geomean xs) 0 (XFin g) = 0%Z -> geomean xs <> GNaN ->
+  g_check xs (geomean xs) 0 (XFin g) <> 2%Z -> geomean xs <> GNaN ->
   0 < g /\ Qabs (Qpw g (length xs) - Qprod xs) <= geo_rel (length xs) * Qprod xs.
 Proof. exact geomean_value_sound. Qed.
 Print Assumptions C09_compare_geomean_sound.
-Example C09_geomean_example : g_check [2; 8] (geomean [2; 8]) 0 (XFin 4) = 0%Z /\ geomean [2; 8] <> GNaN.
-Proof. split; [vm_compute; reflexivity | discriminate]. Qed.
+Example C09_geomean_example : g_check [2; 8] (geomean [2; 8]) 0 (XFin 4) = 0%Z /\ geomean [2; 8] <> GNaN /\
+  g_check [2; 8] (geomean [2; 8]) 0 (XFin (401 # 100)) = 2%Z.
+Proof. split; [vm_compute; reflexivity | split; [discriminate | vm_compute; reflexivity]]. Qed.
 
 (* Non-vacuity: real lines of the harness (hexadecimal fields written in decimal), accepted, and they decode. *)
 Definition C09_line_unw : list Z := [9; 0; 0; 0; 8; 4611686018427387904; 4616189618054758400; 4616189618054758400; 4616189618054758400; 4617315517961601024; 4617315517961601024; 4619567317775286272; 4621256167635550208; 0; 4617315517961601024; 4616832989430097042; 4611996969317966890; 4616868778438153437; 4611686018427387904; 4621256167635550208; 0; 4617315517961601024; 0; 4616832989430097042; 0; 4611996969317966890; 0; 4616868778438153437; 4630826316843712512; 4620693217682128896; 4611686018427387904; 4621256167635550208; 1]%Z.
